@@ -7,23 +7,23 @@ Open Scope N_scope.
 
 (** Refinement: the ended span read back through its accessors is exactly
     what the ordered-map / bounded-FIFO specification computes. *)
-Theorem c04_refines_spec : forall lim name0 ops,
-  live (run_model lim name0 ops) = run_spec lim name0 ops.
+Theorem c04_refines_spec : forall lim so name0 ops,
+  live (run_model lim so name0 ops) = run_spec lim so name0 ops.
 Proof. exact live_refines. Qed.
 Print Assumptions c04_refines_spec.
 
 (** What End hands to the exporter is exactly the specification, for all
     limits (unconditional since fix 543ed08 of F-C04-2 / F-C04-3). *)
-Theorem c04_exported_refines_spec : forall lim name0 ops,
-  snapshot (run_model lim name0 ops) = run_spec lim name0 ops.
+Theorem c04_exported_refines_spec : forall lim so name0 ops,
+  snapshot (run_model lim so name0 ops) = run_spec lim so name0 ops.
 Proof. exact snapshot_refines. Qed.
 Print Assumptions c04_exported_refines_spec.
 
 (** Documentation of the repaired defect: the snapshot as it was before the
     fix did not report exact drop counts when the event / link limit is 0. *)
 Theorem c04_snapshot_before_fix_refuted :
-  (exists lim name0 ops, x_evdropped (snapshot_before_fix (run_model lim name0 ops)) <> x_evdropped (run_spec lim name0 ops)) /\
-  (exists lim name0 ops, x_lkdropped (snapshot_before_fix (run_model lim name0 ops)) <> x_lkdropped (run_spec lim name0 ops)).
+  (exists lim so name0 ops, x_evdropped (snapshot_before_fix (run_model lim so name0 ops)) <> x_evdropped (run_spec lim so name0 ops)) /\
+  (exists lim so name0 ops, x_lkdropped (snapshot_before_fix (run_model lim so name0 ops)) <> x_lkdropped (run_spec lim so name0 ops)).
 Proof. exact snapshot_before_fix_refuted. Qed.
 Print Assumptions c04_snapshot_before_fix_refuted.
 
@@ -109,13 +109,27 @@ Theorem c04_scan_unique : forall s rs, Scan s rs -> rs = runes s.
 Proof. exact scan_unique. Qed.
 Print Assumptions c04_scan_unique.
 
-(** Calls made after End change nothing (state, accessors, export), for all limits. *)
-Theorem c04_after_end_noop : forall lim name0 ops1 ops2,
-  run_model lim name0 (ops1 ++ OEnd :: ops2) = set_ended (run_model lim name0 (before_end ops1)) /\
-  live (run_model lim name0 (ops1 ++ OEnd :: ops2)) = live (run_model lim name0 ops1) /\
-  snapshot (run_model lim name0 (ops1 ++ OEnd :: ops2)) = snapshot (run_model lim name0 ops1).
+(** Calls made after End change nothing: the whole state (hence what the
+    accessors and the exporter see) is that of the program cut after its End,
+    for all limits and all start options. *)
+Theorem c04_after_end_noop : forall lim so name0 ops1 ts ops2,
+  run_model lim so name0 (ops1 ++ OEnd ts :: ops2) = run_model lim so name0 (ops1 ++ [OEnd ts]).
 Proof. exact after_end_noop. Qed.
 Print Assumptions c04_after_end_noop.
+
+(** Start options: the span kind is validated (unknown kinds become Internal),
+    the start / end instants exported are the supplied ones, and the start
+    links / attributes go through AddLink / SetAttributes (by definition of
+    [run_spec] via [start_ops]; the refinement theorems above cover them). *)
+Theorem c04_start_options : forall lim so name0 ops,
+  let x := snapshot (run_model lim so name0 ops) in
+  x_kind x = kind_of (so_kind so) /\ x_start x = so_start so /\ x_end x = end_time_of ops /\
+  (1 <= x_kind x <= 5).
+Proof.
+  intros. unfold x. rewrite snapshot_refines. cbn. repeat split; unfold kind_of;
+    destruct (N.leb_spec 1 (so_kind so)), (N.leb_spec (so_kind so) 5); cbn; lia.
+Qed.
+Print Assumptions c04_start_options.
 
 (** Non-vacuity: a program that exercises duplicates across the capacity
     boundary, an update when full, invalid attributes, truncation, FIFO eviction,
@@ -128,20 +142,24 @@ Definition ex_ops : list op :=
    OSetStatus 1 (str "d1"); OSetStatus 0 (str "x"); OSetStatus 1 (str "d2");
    OAddEvent (str "e1") 5 [(str "k", VInt 1); (str "k", VInt 2)]; ORecordError (str "T") (str "boom") 6 [];
    OAddLink 0 false []; OAddLink 1 false [(str "k", VInt 1)]; OAddLink 2 true [];
-   OSetName (str "n2"); OEnd; OSetName (str "late"); OSetAttrs [(str "b", VInt 9)]; OSetStatus 2 []].
+   OSetName (str "n2"); OEnd 77; OSetName (str "late"); OSetAttrs [(str "b", VInt 9)]; OSetStatus 2 []; OEnd 99].
+Definition ex_so : start_opts :=
+  {| so_attrs := [(str "a", VInt 0); (str "s", VInvalid)]; so_links := [(0, false, []); (5, false, [(str "k", VInt 1)])];
+     so_start := 11; so_kind := 9 |}.
 Example ex_run :
-  run_spec ex_lim (str "n") ex_ops =
+  run_spec ex_lim ex_so (str "n") ex_ops =
   {| x_name := str "n2"; x_status := (1, str "d2");
-     x_attrs := [(str "a", VStr (str "ab")); (str "b", VInt 3)]; x_dropped := 3;
+     x_attrs := [(str "a", VStr (str "ab")); (str "b", VInt 3)]; x_dropped := 4;
      x_events := [{| e_name := str "exception"; e_time := 6; e_attrs := [(str "exception.type", VStr (str "T"))]; e_dropped := 1 |}];
      x_evdropped := 1;
-     x_links := [{| l_ctx := 2; l_ts := true; l_attrs := []; l_dropped := 0 |}]; x_lkdropped := 1 |} /\
-  snapshot (run_model ex_lim (str "n") ex_ops) = run_spec ex_lim (str "n") ex_ops.
+     x_links := [{| l_ctx := 2; l_ts := true; l_attrs := []; l_dropped := 0 |}]; x_lkdropped := 2;
+     x_kind := 1; x_start := 11; x_end := 77 |} /\
+  snapshot (run_model ex_lim ex_so (str "n") ex_ops) = run_spec ex_lim ex_so (str "n") ex_ops.
 Proof. vm_compute. split; reflexivity. Qed.
 Example ex_limit0 :
-  x_evdropped (snapshot (run_model lim_ev0 (str "s") [OAddEvent (str "e") 1 []; OAddEvent (str "e") 2 []; OEnd])) = 2%nat /\
-  x_lkdropped (snapshot (run_model lim_lk0 (str "s") [OAddLink 1 false []; OEnd])) = 1%nat.
+  x_evdropped (snapshot (run_model lim_ev0 no_start (str "s") [OAddEvent (str "e") 1 []; OAddEvent (str "e") 2 []; OEnd 0])) = 2%nat /\
+  x_lkdropped (snapshot (run_model lim_lk0 no_start (str "s") [OAddLink 1 false []; OEnd 0])) = 1%nat.
 Proof. vm_compute. split; reflexivity. Qed.
-Example ex_keys : kept_keys 2 (offers_of (before_end ex_ops)) = [str "a"; str "b"] /\
-                  dropped_count 2 (offers_of (before_end ex_ops)) = 3%nat.
+Example ex_keys : kept_keys 2 (offers_of (start_ops ex_so ++ before_end ex_ops)) = [str "a"; str "b"] /\
+                  dropped_count 2 (offers_of (start_ops ex_so ++ before_end ex_ops)) = 4%nat.
 Proof. vm_compute. split; reflexivity. Qed.
